@@ -14,6 +14,7 @@ import (
 	"io"
 	"net"
 	"os"
+	"runtime"
 	"strings"
 	"time"
 
@@ -63,14 +64,24 @@ type scenario struct {
 	// Peeked: the transport hands out bytes it has already received without looking at its read deadline first (a buffering
 	// wrapper): a deadline that NewConn set on it and did not take back shows on the next real read
 	Peeked bool `json:"transport_serves_buffered_bytes_first,omitempty"`
+	// Exit (round 14): how NewConn is LEFT once the first hello has been read. "" = it returns; "option-panics" = the last of the
+	// caller's Options (the only user code that runs inside NewConn) panics and the caller recovers, as a per-connection server
+	// does; "option-goexits" = that Option calls runtime.Goexit (a t.Fatal in a test's Option): the thread that called NewConn is
+	// gone from then on, another one ("keeper") sees to the context. When the Options are not reached (the read fails first) NewConn returns as ever.
+	Exit string `json:"newconn_left_by,omitempty"`
 }
+
+// optionPanic is what the panicking Option panics with.
+const optionPanic = "c10: the caller's Option panics"
 
 const priorDeadline = 100 * unit
 
 type observation struct {
-	newConnErr  error
+	newConnErr error
+	// returnedAt / returned: NewConn is over - it returned or (leftBy != "") it was left by a panic / Goexit of the caller's Option
 	returnedAt  time.Duration
 	returned    bool
+	leftBy      string
 	seqAtReturn int
 	rdlAtReturn time.Time
 	wdlAtReturn time.Time
@@ -154,7 +165,13 @@ func run(sc scenario, choose vs.Chooser, traceOn bool) (*observation, *vs.Sched,
 		} else {
 			ctx, cancel = vs.WithCancel(context.Background())
 		}
-		defer cancel()
+		// (round 14: a thread that runs on after the caller's thread is gone takes the caller's deferred cancel() over)
+		cancelHandedOver := false
+		defer func() {
+			if !cancelHandedOver {
+				cancel()
+			}
+		}()
 		if sc.Cancel == "before-call" {
 			ob.cancelAt, ob.cancelled = vs.Elapsed(), true
 			cancel()
@@ -228,10 +245,67 @@ func run(sc scenario, choose vs.Chooser, traceOn bool) (*observation, *vs.Sched,
 		if sc.TCPLike {
 			nc = vnet.TCPLike{Conn: t}
 		}
-		conn, err := ech.NewConn(ctx, nc, opts...)
-		ob.newConnErr, ob.returnedAt, ob.returned = err, vs.Elapsed(), true
-		ob.seqAtReturn = t.Seq()
-		ob.rdlAtReturn, ob.wdlAtReturn = t.Deadlines()
+		// over: NewConn has just been left (no scheduling point lies between its last step and this)
+		over := func() {
+			ob.returnedAt, ob.returned = vs.Elapsed(), true
+			ob.seqAtReturn = t.Seq()
+			ob.rdlAtReturn, ob.wdlAtReturn = t.Deadlines()
+		}
+		var conn *ech.Conn
+		var err error
+		switch sc.Exit {
+		case "option-panics":
+			opts = append(opts, func(*ech.Conn) { panic(optionPanic) })
+			func() {
+				defer func() {
+					if p := recover(); p != nil {
+						if p != any(optionPanic) {
+							panic(p)
+						}
+						ob.leftBy = sc.Exit
+						over()
+					}
+				}()
+				conn, err = ech.NewConn(ctx, nc, opts...)
+			}()
+		case "option-goexits":
+			optionRan := false
+			opts = append(opts, func(*ech.Conn) { optionRan = true; runtime.Goexit() })
+			defer func() {
+				// (deferred calls also run when the scheduler unwinds a thread that is still inside NewConn at the end of an execution,
+				// and after a return)
+				if !optionRan || ob.returned {
+					return
+				}
+				ob.leftBy = sc.Exit
+				over()
+				// the caller's thread is gone from here on; what becomes of the context is seen to by another one
+				cancelHandedOver = true
+				vs.GoNamed("keeper", func() {
+					if sc.Cancel == "after-return" {
+						ob.cancelAt, ob.cancelled = vs.Elapsed(), true
+						cancel()
+					}
+					vs.Sleep(10 * unit)
+					cancel()
+				})
+			}()
+			conn, err = ech.NewConn(ctx, nc, opts...)
+		default:
+			conn, err = ech.NewConn(ctx, nc, opts...)
+		}
+		if ob.leftBy != "" {
+			// round 14: NewConn is over although it did not return; what becomes of the context now is, again, none of the
+			// transport's business
+			if sc.Cancel == "after-return" {
+				ob.cancelAt, ob.cancelled = vs.Elapsed(), true
+				cancel()
+			}
+			vs.Sleep(10 * unit)
+			return
+		}
+		over()
+		ob.newConnErr = err
 		if err != nil {
 			// round 13: "the context governs only the initial read" - NewConn has returned, so whatever happens to the context
 			// from here on (the caller cancels it at once; another thread or its own timer ends it later; the caller's deferred
@@ -283,7 +357,7 @@ func run(sc scenario, choose vs.Chooser, traceOn bool) (*observation, *vs.Sched,
 		}
 	}
 	for _, te := range s.ThreadEnds() {
-		if ob.returned && te.Name != "main" && te.Name != "client" && te.Name != "canceller" && (!te.Done || te.At > ob.returnedAt) {
+		if ob.returned && te.Name != "main" && te.Name != "client" && te.Name != "canceller" && te.Name != "keeper" && (!te.Done || te.At > ob.returnedAt) {
 			end := "never finished"
 			if te.Done {
 				end = fmt.Sprintf("finished at %v", te.At)
@@ -309,10 +383,11 @@ func monitor(sc scenario, ob *observation, s *vs.Sched, t *vnet.Conn) (key, what
 	if s.Livelock {
 		return "livelock", "step horizon exceeded"
 	}
-	if !ob.returned {
+	if !ob.returned || (ob.leftBy != "" && strings.Contains(s.Deadlock, "thread 0 (main) blocked")) {
+		// (the second case: the caller's thread was still inside NewConn, behind the Option that had ended it, when nothing could run any more)
 		return "newconn-never-returns", "NewConn did not return: " + s.Deadlock
 	}
-	if s.Deadlock != "" {
+	if s.Deadlock != "" && ob.leftBy == "" {
 		return "thread-blocked-forever", s.Deadlock
 	}
 	helloComplete := sc.Hello == "buffered" || sc.Hello == "late" || sc.Hello == "two-fragments" || sc.Hello == "two-records"
@@ -331,6 +406,13 @@ func monitor(sc scenario, ob *observation, s *vs.Sched, t *vnet.Conn) (key, what
 	slack := time.Duration(0)
 	if sc.SlowDeadline {
 		slack = unit // what the watcher does to stop NewConn takes that long on this transport
+	}
+	if ob.leftBy != "" {
+		// round 14: the Options were reached, so the first hello had been read - which the context bounds
+		if ctxEnds && ctxEndAt < completeAt {
+			return "newconn-ignores-context", fmt.Sprintf("the context ended at %v, the hello only completed at %v, yet NewConn went on to run the caller's Options (%s at %v)", ctxEndAt, completeAt, ob.leftBy, ob.returnedAt)
+		}
+		return afterExitWithoutReturn(sc, ob, s)
 	}
 	if refusedAtOnce(sc.Hello) {
 		// the refusal itself does not depend on the context; but the alert write may block (client not reading), and then the
@@ -426,6 +508,26 @@ func afterFailedReturn(ob *observation) (key, what string) {
 	}
 	if len(ob.lingering) > 0 {
 		return "goroutine-outlives-failed-newconn", fmt.Sprintf("NewConn returned (%v) at %v and left a goroutine behind: %s", ob.newConnErr, ob.returnedAt, strings.Join(ob.lingering, "; "))
+	}
+	return "", ""
+}
+
+// afterExitWithoutReturn (round 14): the context governs only the initial read. The caller's Options run inside NewConn after
+// that read; when one of them does not come back - it panics and the caller recovers, or it ends the calling thread with
+// runtime.Goexit - NewConn is over just as it is after a return: the context that ends afterwards (the caller's cancel() at once
+// or 10 s later, another thread, its own timer) or never ends must not reach the transport the caller passed in, and nothing
+// NewConn started may still be waiting for it.
+func afterExitWithoutReturn(sc scenario, ob *observation, s *vs.Sched) (key, what string) {
+	how := map[string]string{"option-panics": "option-panic", "option-goexits": "option-goexit"}[ob.leftBy]
+	if len(ob.callsAfter) > 0 {
+		c := ob.callsAfter[0]
+		return "deadline-call-after-newconn-left-by-" + how, fmt.Sprintf("%s(%v) on the transport at %v, after NewConn had been left (%s) at %v", c.Kind, c.T.Sub(vs.Base), c.At, ob.leftBy, ob.returnedAt)
+	}
+	if len(ob.lingering) > 0 {
+		return "goroutine-outlives-newconn-left-by-" + how, fmt.Sprintf("NewConn was left (%s) at %v and left a goroutine behind: %s", ob.leftBy, ob.returnedAt, strings.Join(ob.lingering, "; "))
+	}
+	if s.Deadlock != "" {
+		return "thread-blocked-forever", s.Deadlock
 	}
 	return "", ""
 }
@@ -568,6 +670,28 @@ func scenarios() []scenario {
 			}
 		}
 	}
+	// round 14: "the context governs only the initial read" whichever way NewConn is LEFT after that read: by a return, by a panic
+	// of one of the caller's Options that the caller recovers, or by an Option that ends the calling thread (runtime.Goexit) - hello
+	// {valid: buffered / late / in two records; one the processing would refuse; a record refused before the Options are reached}
+	// x every context of round 13 {ends after the exit: caller's cancel() at once / 10 s later, another thread, its own timer; never
+	// ends; ends before or during the call} x keys x transport {plain, CloseRead/CloseWrite, SetDeadline reporting an error}: no
+	// deadline call on the transport after the exit, nothing NewConn started still there (afterExitWithoutReturn)
+	for _, x := range []string{"option-panics", "option-goexits"} {
+		for _, h := range []string{"buffered", "late", "two-records", "rejected-hello", "bad-record"} {
+			for _, c := range []string{"never", "after-return", "background", "t3", "t0", "t1", "before-call", "deadline2", "deadline5-cancelled-at-1"} {
+				add(scenario{Hello: h, Cancel: c, Keys: true, Exit: x})
+				if h == "bad-record" || !(c == "never" || c == "after-return" || c == "background" || c == "t3") {
+					continue
+				}
+				// the context ends after NewConn is over, or never: also without keys and over the other transports
+				add(scenario{Hello: h, Cancel: c, Keys: true, Exit: x, TCPLike: true})
+				add(scenario{Hello: h, Cancel: c, Keys: true, Exit: x, DeadlineErr: true})
+				if h != "rejected-hello" {
+					add(scenario{Hello: h, Cancel: c, Keys: false, Exit: x})
+				}
+			}
+		}
+	}
 	return out
 }
 
@@ -637,6 +761,9 @@ func explore(r *ev.Run, scs []scenario, bound int, family string) {
 			oc := "newconn-ok"
 			if ob.newConnErr != nil {
 				oc = "newconn-error@" + ob.returnedAt.String()
+			}
+			if ob.leftBy != "" {
+				oc = "newconn-left-by-" + ob.leftBy + "@" + ob.returnedAt.String()
 			}
 			if len(ob.callsAfter) > 0 {
 				oc += "+late-deadline-call"
@@ -717,7 +844,7 @@ func Run(r *ev.Run, replay string) {
 		return
 	}
 	b := bound(r.Tier)
-	r.Rule(fmt.Sprintf("E3 stateless exploration of the real NewConn (sources rewritten into scheduler shims at check time) in virtual time: scenarios = hello {already buffered, arriving at t=1, in two fragments at t=0 and t=2, in two TLS records at t=0 and t=2, only the first of two records, never, a complete record that is not a handshake record / a complete ClientHello that the processing refuses (the alert is written to a client that reads or never reads)} x context {never ends, already cancelled before the call, cancelled by another thread at t=0/1/3, cancelled by the caller right after NewConn returned, deadline at t=2, deadline at t=5 cancelled at t=1} x keys {yes,no} x {plain use, HelloRetryRequest + second hello (in one record, or in two records cut after 3 / 100 bytes) after the return, caller's own transport deadline set before the call}; threads = caller (NewConn, then Read/Write on the result), canceller, client, and the watcher NewConn spawns; ALL schedules with at most %d deviations (preemption / non-canonical thread pick, non-first ready select case, timer order). Monitors: NewConn fails only if the context ended before the hello was complete and then no later than that instant; after a successful return no deadline call starts, no deadline is left set (a deadline the caller had set before is still exactly that), and the caller's I/O succeeds. Round 13: first records on which NewConn fails before a Conn exists (content type 23, record length 65535, end of stream at once / after plain HTTP / in mid-record / after the first of two records) and the context ending only AFTER that failed return (caller's cancel() at once or 10 s later, another thread, its own timer) or never (context.Background()): after any return, failed or not, no deadline call reaches the transport and no goroutine NewConn started is still there. distinct = distinct scenarios", b))
+	r.Rule(fmt.Sprintf("E3 stateless exploration of the real NewConn (sources rewritten into scheduler shims at check time) in virtual time: scenarios = hello {already buffered, arriving at t=1, in two fragments at t=0 and t=2, in two TLS records at t=0 and t=2, only the first of two records, never, a complete record that is not a handshake record / a complete ClientHello that the processing refuses (the alert is written to a client that reads or never reads)} x context {never ends, already cancelled before the call, cancelled by another thread at t=0/1/3, cancelled by the caller right after NewConn returned, deadline at t=2, deadline at t=5 cancelled at t=1} x keys {yes,no} x {plain use, HelloRetryRequest + second hello (in one record, or in two records cut after 3 / 100 bytes) after the return, caller's own transport deadline set before the call}; threads = caller (NewConn, then Read/Write on the result), canceller, client, and the watcher NewConn spawns; ALL schedules with at most %d deviations (preemption / non-canonical thread pick, non-first ready select case, timer order). Monitors: NewConn fails only if the context ended before the hello was complete and then no later than that instant; after a successful return no deadline call starts, no deadline is left set (a deadline the caller had set before is still exactly that), and the caller's I/O succeeds. Round 13: first records on which NewConn fails before a Conn exists (content type 23, record length 65535, end of stream at once / after plain HTTP / in mid-record / after the first of two records) and the context ending only AFTER that failed return (caller's cancel() at once or 10 s later, another thread, its own timer) or never (context.Background()): after any return, failed or not, no deadline call reaches the transport and no goroutine NewConn started is still there. Round 14: the same when NewConn is left, after the hello was read, by a panic of one of the caller's Options (recovered by the caller) or by an Option that ends the calling thread with runtime.Goexit, for valid and refused hellos and every one of these contexts. distinct = distinct scenarios", b))
 	r.Assume("computation takes zero virtual time; sequentially consistent memory at synchronisation granularity", "the transport is a scheduler-aware fake whose Read honours deadlines")
 	explore(r, scenarios(), b, "c10")
 }
